@@ -120,6 +120,16 @@ func (vm *VM) PushCallFrame(callFrame *CallFrame) {
 	vm.initValueStack(vm.csModuleID)
 }
 
+// MaxCallDepth - how many calls may be active at the same time. Every Zn call costs Go stack;
+// a recursion that never ends would otherwise overflow it, which no recover can catch and which
+// ends the whole process. (1 GB of Go stack holds several times this many calls.)
+const MaxCallDepth = 100000
+
+// CallDepthExceeded - whether another call would exceed MaxCallDepth
+func (vm *VM) CallDepthExceeded() bool {
+	return vm.csCount >= MaxCallDepth
+}
+
 func (vm *VM) PopCallFrame() {
 	vm.csCount -= 1
 	vm.callStack = vm.callStack[:vm.csCount]
